@@ -72,4 +72,64 @@ def readyOps (size : Nat) : Outcome → List BOp × Bool × Option Nat × Bool
     else
       ([.free], false, none, true)
 
+/-! ### whole client histories (the function the driver executes for `cw` / `cr` lines) -/
+
+/-- what happens to a client: `write` = `ClientImpl::write(data, size)`, `ready` = one write-readiness event, each with the
+    answer `send` gives should it be called -/
+inductive CEv where
+  | write (d : List Nat) (o : Outcome)
+  | ready (o : Outcome)
+  deriving Repr, Inhabited
+
+/-- the Buffer variables (variable `c` = `_sendBuffer` of client `c`) and which clients were closed -/
+structure DState where
+  st : State
+  dead : List Bool
+
+/-- `n` clients with default-constructed `_sendBuffer`s -/
+def cinit (n : Nat) (regs : List (List Byte)) : DState := { st := init n regs, dead := List.replicate n false }
+
+def runBOps (st : State) (k : Nat) (c : Nat) : List BOp → Option State
+  | [] => some st
+  | b :: bs => do let st ← step st k (b.op c); runBOps st k c bs
+
+/-- what the event reported (printed by the driver) -/
+inductive CRes where
+  | dead
+  | idle
+  | wrote (closing : Bool) (sent : Option Nat) (post : Nat)
+  | readied (closed : Bool) (sent : Option Nat) (onWrite : Bool) (offered : Nat)
+  deriving Repr, Inhabited
+
+/-- one client event on the Buffer model; `none` = the Buffer model faulted (or `c` is not a client).  `k` = capacity wish
+    for the client's Buffer.  A closed client ignores events; a write-readiness event reaches only a client that is
+    registered for write-readiness, i.e. whose backlog is not empty (`idle` otherwise). -/
+def clientStep (d : DState) (k c : Nat) : CEv → Option (DState × CRes)
+  | .write data o =>
+    if d.dead.getD c true then some (d, .dead) else
+    match d.st.getBuf c with
+    | none => none
+    | some b =>
+      let (ops, closing, sent) := writeOps b.size data o
+      match runBOps d.st k c ops with
+      | none => none
+      | some st' =>
+        let post := if closing then 0 else (st'.getBuf c).map Buf.size |>.getD 0
+        some ({ st := st', dead := if closing then d.dead.set c true else d.dead }, .wrote closing sent post)
+  | .ready o =>
+    if d.dead.getD c true then some (d, .dead) else
+    match d.st.getBuf c with
+    | none => none
+    | some b =>
+      if b.size = 0 then some (d, .idle) else
+      let (ops, closed, sent, onWrite) := readyOps b.size o
+      match runBOps d.st k c ops with
+      | none => none
+      | some st' => some ({ st := st', dead := if closed then d.dead.set c true else d.dead }, .readied closed sent onWrite b.size)
+
+/-- a history of client events: (client, event, capacity wish) -/
+def crun (d : DState) : List (Nat × CEv × Nat) → Option DState
+  | [] => some d
+  | (c, ev, k) :: evs => do let (d', _) ← clientStep d k c ev; crun d' evs
+
 end Nstd.Buffer
